@@ -1,28 +1,1292 @@
-// System-call level simulation (ptrace): placeholder until the engine lands.
-use serde_json::Value;
+// System-call level simulation ("sysim"): clients run under ptrace; the simulator decides which
+// filesystem system call executes next and with what outcome (real / errno / short / kill).
+// Checks: C03 (atomic content), C04 (crash all-or-nothing), C07 (serialisability), C13 (errno), C15 (confinement).
+use std::collections::BTreeMap;
+use std::path::{Path, PathBuf};
+
+use serde_json::{json, Value};
 
 use crate::checks::CheckSpec;
-use crate::interp::{Ctx, Outcome};
-use crate::prng::Rng;
+use crate::disk;
+use crate::fmt;
+use crate::gen::*;
+use crate::hash;
+use crate::interp::{CState, Content, Ctx, Entry, Interp, Outcome, Pre, Viol};
+use crate::prng::{hash_str, mix, Rng};
+use crate::pt::*;
+use crate::tracer::*;
+use crate::wk::worker_bin;
 
-pub fn spec(_id: &str) -> Option<CheckSpec> {
-    None
+const A_SYS: &[&str] = &[
+    "each filesystem system call is atomic with respect to the others (POSIX/Linux for rename, mkdir, unlink, link, symlink, O_APPEND writes; reads are bounded by i_size so an appended record is seen whole or not at all)",
+    "the kernel's tmpfs implements POSIX semantics; ptrace register patching is verified by a start-up self-test (injected errno / shortened write observed by the worker)",
+    "crash = SIGKILL at a system-call boundary (optionally after a torn data write); durable state = every completed system call (process-kill model, no power loss)",
+    "thread timing inside one async client is real; decisions are indexed by (client, ordinal of its filesystem system calls), which is stable because each API call awaits its filesystem work sequentially",
+];
+
+pub fn spec(id: &str) -> Option<CheckSpec> {
+    let s = match id {
+        "C03" => CheckSpec {
+            id: "C03",
+            engine: "sysim",
+            level: "fault_enumeration",
+            owns: &["content-integrity", "crash-read", "crash-atomicity", "fault-surface"],
+            runs: (60, 1500),
+            rule: "a run = one write shape (entry point x size around the mmap threshold x chunking x declared size x flavour x cold/warm cache x address already present); inside it EVERY kill point (before each filesystem system call of the write) and, for each data-carrying call, torn lengths {0,1,len/2,len-1} (quick) / more (thorough) then kill are enumerated; evaluations counts simulated executions. After every executed system call every file named by it under content-v2 is re-hashed (I1); after the kill the whole content area is scanned and fresh readers of all flavours must see 'absent' or the exact bytes. Non-trivial = the kill landed after the temp file existed; distinct by hash of the normalised system-call trace",
+            assumptions: A_SYS,
+        },
+        "C04" => CheckSpec {
+            id: "C04",
+            engine: "sysim",
+            level: "fault_enumeration",
+            owns: &["crash-atomicity", "lookup", "read-exact", "listing", "missing-content", "content-integrity", "removal", "write-ok", "commit-accept", "format", "fault-surface"],
+            runs: (30, 600),
+            rule: "a run = prior state of key K (absent / present / removed) + bystander key + victim (keyed write one-shot or streamed with metadata, or removal) x flavour; inside it every kill point and EVERY torn prefix length of the index append are enumerated; after the kill the simulator's decoder must find K exactly old or exactly new, all five reader flavours must agree, the bystander is unchanged, a visible new entry has complete content, and a continuation history (re-write, remove, write bystander) succeeds and is visible. Non-trivial = kill landed inside the victim call; distinct by trace hash",
+            assumptions: A_SYS,
+        },
+        "C13" => CheckSpec {
+            id: "C13",
+            engine: "sysim",
+            level: "fault_enumeration",
+            owns: &["fault-surface", "content-integrity", "lookup", "read-exact", "listing", "missing-content", "write-ok", "commit-accept", "retry", "crash-atomicity", "checked-read", "extract", "extract-leftover", "removal", "exists", "format"],
+            runs: (140, 2500),
+            rule: "a run = one victim call (write*, streamed write+commit, read*, Reader+check, copy*, hard_link*, remove*, remove_hash*, list, metadata*, link_to*) x flavour x cache shape (cold, warm, bucket > 8 KiB, content > one read buffer); inside it EVERY filesystem system call of the victim x each applicable errno (and short-write-then-ENOSPC for data writes) is injected one at a time; the call must return Err or a truthful Ok, never panic/hang; afterwards all other entries read back exactly, content area passes I1, the victim key is exactly old or new, and the same call repeated without faults succeeds. Non-trivial = the errno was actually delivered; distinct by trace hash",
+            assumptions: A_SYS,
+        },
+        "C15" => CheckSpec {
+            id: "C15",
+            engine: "sysim",
+            level: "exploration",
+            owns: &["confinement", "readonly-mutates", "key-opaque", "lookup", "read-exact", "listing"],
+            runs: (1500, 40000),
+            rule: "a run = a seeded program over the whole operation table with hostile/confusable keys, executed by one traced client whose TMPDIR, HOME and cwd point at sentinel directories; every mutating system call (open with write/create flags, mkdir, rename, unlink, link, symlink, truncate, fallocate, write-family, writable shared mmap, chmod/chown/utimens/xattr, copy_file_range, FICLONE) must target the cache directory or the declared destination; read-only API calls issue no mutating call; index paths touched for key k are exactly index-v5/sha1(k); sentinel trees are byte-identical afterwards. Half the runs inject one errno to reach error paths. Non-trivial = >= 1 mutating system call observed; distinct by trace hash",
+            assumptions: A_SYS,
+        },
+        "C07" => CheckSpec {
+            id: "C07",
+            engine: "sysim",
+            level: "exploration",
+            owns: &["serializability", "content-integrity", "partial-record", "no-panic"],
+            runs: (4000, 150000),
+            rule: "a run = 2-3 client processes (flavours drawn) each issuing one operation chosen to collide (same key / same content / reader of the key being written / remover of content being written) on a cold or warm cache; at every step the seeded scheduler (uniform random, PCT-style priorities, or enumerated for small cases) picks which parked client's filesystem system call executes; no faults. Accept iff some permutation of the operations applied to the reference model explains every observed result and the final cache state; I1 and 'every bucket line is a whole record' hold after every step. Non-trivial = >= 1 context switch between clients inside overlapping calls; distinct interleavings counted by hash of the (client, syscall) sequence",
+            assumptions: A_SYS,
+        },
+        _ => return None,
+    };
+    Some(s)
 }
+
 pub fn exhaustive_count(_id: &str, _tier: &str) -> u64 {
     0
 }
-pub fn generate(_id: &str, _tier: &str, _r: u64, _rng: &mut Rng) -> Value {
-    Value::Null
+
+pub fn stubs(id: &str) -> Vec<String> {
+    if id == "C18" {
+        vec!["ioctl(FICLONE) emulated as an in-kernel full copy".into()]
+    } else {
+        Vec::new()
+    }
 }
-pub fn run_scenario(_ctx: &mut Ctx, _spec: &CheckSpec, _sc: &Value, _run_id: &str) -> Outcome {
-    Outcome::default()
+
+pub fn nontrivial(_id: &str, _sc: &Value, out: &Outcome) -> bool {
+    !out.sub_hashes.is_empty()
 }
-pub fn nontrivial(_id: &str, _sc: &Value, _out: &Outcome) -> bool {
-    false
+
+// ------------------------------------------------------------------------------------------ one simulated execution
+#[derive(Default)]
+pub struct Sub {
+    pub viols: Vec<Viol>,
+    pub trace: Vec<String>, // normalised event log
+    pub events: Vec<Event>,
+    pub hash: u64,
+    pub nontrivial: bool,
+    pub steps: u64,
+    pub faults: BTreeMap<String, u64>,
+    pub probes: BTreeMap<String, u64>,
+    pub harness: Option<String>,
+    pub results: Vec<Vec<Option<Value>>>,
+    pub victim_events: Vec<usize>, // indices into events of client 0's victim op
+    pub inter_hash: u64,
+    pub decisions: Vec<usize>,
+    pub switches: u64,
 }
-pub fn minimise(_ctx: &mut Ctx, _spec: &CheckSpec, sc: &Value, _sig: &str, _budget_s: u64) -> Value {
-    sc.clone()
+
+fn norm_path(p: &str, root: &str, tmpnames: &mut BTreeMap<String, usize>) -> String {
+    let mut s = p.replace(root, "$R");
+    // tempfile names
+    if let Some(i) = s.find("/tmp/.tmp") {
+        let name = s[i + 5..].to_string();
+        let n = tmpnames.len();
+        let id = *tmpnames.entry(name.clone()).or_insert(n);
+        s = format!("{}/tmp/.tmp#{}", &s[..i], id);
+    }
+    s
 }
-pub fn stubs(_id: &str) -> Vec<String> {
-    Vec::new()
+
+fn fault_for(plan: &Value, client: usize, ord: usize) -> Option<Action> {
+    for f in plan["faults"].as_array()? {
+        if f["client"].as_u64().unwrap_or(0) as usize == client && f["at"].as_u64() == Some(ord as u64) {
+            return Some(Action::from_json(&f["action"]));
+        }
+    }
+    None
+}
+
+struct Sched {
+    policy: String,
+    rng: Rng,
+    explicit: Vec<usize>,
+    pos: usize,
+    prio: Vec<u64>,
+    change_at: Vec<usize>,
+}
+
+impl Sched {
+    fn new(plan: &Value, nclients: usize) -> Sched {
+        let s = &plan["schedule"];
+        let seed = s["seed"].as_u64().unwrap_or(1);
+        let mut rng = Rng::new(seed);
+        let policy = s["policy"].as_str().unwrap_or("first").to_string();
+        let mut prio: Vec<u64> = (0..nclients as u64).collect();
+        rng.shuffle(&mut prio);
+        let d = s["depth"].as_u64().unwrap_or(2) as usize;
+        let horizon = s["horizon"].as_u64().unwrap_or(60);
+        let change_at: Vec<usize> = (0..d).map(|_| rng.below(horizon) as usize).collect();
+        Sched { policy, rng, explicit: s["decisions"].as_array().map(|a| a.iter().map(|x| x.as_u64().unwrap_or(0) as usize).collect()).unwrap_or_default(), pos: 0, prio, change_at }
+    }
+    /// choose among parked (client, tid), sorted; returns index
+    fn choose(&mut self, parked: &[(usize, i32)], step: usize) -> usize {
+        if parked.len() == 1 {
+            // still consume an explicit decision so replay lists stay aligned
+            if self.policy == "explicit" {
+                self.pos += 1;
+            }
+            return 0;
+        }
+        match self.policy.as_str() {
+            "explicit" => {
+                let want = self.explicit.get(self.pos).cloned();
+                self.pos += 1;
+                match want.and_then(|w| parked.iter().position(|p| p.0 == w)) {
+                    Some(i) => i,
+                    None => 0,
+                }
+            }
+            "random" => self.rng.idx(parked.len()),
+            "pct" => {
+                if self.change_at.contains(&step) {
+                    // demote the currently highest-priority client
+                    if let Some((i, _)) = self.prio.iter().enumerate().max_by_key(|(_, p)| **p) {
+                        let min = self.prio.iter().min().cloned().unwrap_or(0);
+                        self.prio[i] = min.saturating_sub(1);
+                    }
+                }
+                let mut best = 0;
+                for (i, p) in parked.iter().enumerate() {
+                    if self.prio[p.0] > self.prio[parked[best].0] {
+                        best = i;
+                    }
+                }
+                best
+            }
+            _ => 0,
+        }
+    }
+}
+
+pub struct Exec<'a> {
+    pub it: Interp<'a>,
+    pub sc: &'a Value,
+    pub pres: Vec<Vec<Pre>>,
+    pub sub: Sub,
+    pub ctl: PathBuf,
+}
+
+/// Execute prelude + traced phase of a scenario under an explicit plan. The returned Exec still owns
+/// the interpreter (model + cache directory) so that the check-specific oracle can continue.
+pub fn exec_traced<'a>(ctx: &'a mut Ctx, sc: &'a Value, plan: &Value, tag: &str) -> Exec<'a> {
+    let workers_dir = ctx.workers_dir.clone();
+    let ctl = ctx.scratch.join(format!("ctl-{tag}"));
+    let _ = std::fs::remove_dir_all(&ctl);
+    std::fs::create_dir_all(&ctl).ok();
+    let mut it = Interp::new(ctx, sc, tag);
+    it.begin();
+    it.allow_tmp_leftovers = true;
+    it.strict_format = false;
+    let prelude = sc["prelude"].as_array().cloned().unwrap_or_default();
+    it.run_steps(&prelude, 0);
+    let mut sub = Sub::default();
+    if !it.out.viols.is_empty() {
+        *sub.probes.entry("prelude_violations".into()).or_insert(0) += it.out.viols.len() as u64;
+    }
+    // sentinel directories (C15)
+    let root = it.root.clone();
+    for d in ["sentinel-tmp", "sentinel-home", "sentinel-cwd"] {
+        std::fs::create_dir_all(root.join(d)).ok();
+        std::fs::write(root.join(d).join("keep"), b"sentinel").ok();
+    }
+    // programs
+    let clients = sc["clients"].as_array().cloned().unwrap_or_default();
+    let mut pres: Vec<Vec<Pre>> = Vec::new();
+    let mut tracer = Tracer::new(&root);
+    tracer.emulate_ficlone = sc["emulate_ficlone"].as_bool().unwrap_or(false);
+    let clock = it.clock;
+    for (ci, c) in clients.iter().enumerate() {
+        let bin = c["bin"].as_str().unwrap_or("sync");
+        let mut lines: Vec<String> = Vec::new();
+        lines.push(match clock {
+            Some(ms) => json!({"op":"set_clock","ms":ms.to_string()}).to_string(),
+            None => json!({"op":"ping"}).to_string(),
+        });
+        let mut p = Vec::new();
+        for st in c["steps"].as_array().cloned().unwrap_or_default() {
+            let mut st2 = st.clone();
+            st2["bin"] = json!(bin);
+            let (_b, op, pre) = it.prepare(&st2);
+            lines.push(op.to_string());
+            p.push(pre);
+        }
+        pres.push(p);
+        let prog = ctl.join(format!("c{ci}.prog"));
+        let out = ctl.join(format!("c{ci}.out"));
+        std::fs::write(&prog, lines.join("\n") + "\n").ok();
+        let env = vec![
+            ("ASYNC_STD_THREAD_COUNT".to_string(), "2".to_string()),
+            ("TMPDIR".to_string(), root.join("sentinel-tmp").display().to_string()),
+            ("HOME".to_string(), root.join("sentinel-home").display().to_string()),
+            ("PATH".to_string(), "/usr/bin:/bin".to_string()),
+        ];
+        if let Err(e) = tracer.spawn(&worker_bin(&workers_dir, bin), &prog, &out, &root.join("sentinel-cwd"), &env) {
+            sub.harness = Some(format!("cannot start traced worker: {e}"));
+            return Exec { it, sc, pres, sub, ctl };
+        }
+    }
+    let root_s = normalize(&root.display().to_string());
+    let cache_s = format!("{}/cache", root_s);
+    let mut sched = Sched::new(plan, clients.len());
+    let mut checked_upto = 0usize;
+    let mut last_client: Option<usize> = None;
+    let mut faults_delivered = 0u64;
+    loop {
+        let p = tracer.pump();
+        // I1 (incremental): every file under content-v2 named by a call that just executed hashes to its path;
+        // and no bucket line is a partial record in fault-free runs
+        while checked_upto < tracer.events.len() && tracer.events[checked_upto].ret != i64::MIN {
+            let ev = tracer.events[checked_upto].clone();
+            checked_upto += 1;
+            if !ev.sys.mutating || ev.ret == -9999 {
+                continue;
+            }
+            for p in [&ev.sys.path, &ev.sys.path2].into_iter().flatten() {
+                if let Some(rel) = p.strip_prefix(&format!("{}/", cache_s)) {
+                    if rel.starts_with("content-v2/") && rel.split('/').count() == 5 {
+                        let md = std::fs::symlink_metadata(root.join("cache").join(rel));
+                        if let Ok(md) = md {
+                            if md.is_file() {
+                                let damaged = matches!(it.m.content.get(rel), Some(c) if c.state == CState::Damaged);
+                                let cf = disk::check_content_file(&root.join("cache"), rel, disk::FileKind::Regular);
+                                if !cf.digest_ok && !damaged {
+                                    sub.viols.push(Viol { class: "content-integrity".into(), sig: format!("content-integrity/visible-after/{}", ev.sys.name), msg: format!("after {} by client {} (step {}), content file {} ({} B) does not hold the data of its address", ev.sys.name, ev.client, ev.step, rel, cf.len), step: ev.step, scenario: None });
+                                }
+                            }
+                        }
+                    }
+                    if ev.sys.nr == SYS_MMAP && rel.starts_with("content-v2/") {
+                        sub.viols.push(Viol { class: "content-integrity".into(), sig: "content-integrity/content-file-mapped-writable".into(), msg: format!("content file {} is mapped shared+writable: partial data would be visible under its address", rel), step: ev.step, scenario: None });
+                    }
+                    if rel.starts_with("index-v5/") && ev.sys.data_write && sc["check_partial_records"].as_bool().unwrap_or(false) && ev.ret >= 0 {
+                        // C07: no reader may ever see a partial record: after every write the bucket consists of whole records
+                        if let Ok(b) = std::fs::read(root.join("cache").join(rel)) {
+                            let lines = fmt::parse_bucket(&b);
+                            if lines.iter().skip(1).any(|l| l.rec.is_none()) || (b.first() != Some(&b'\n') && !b.is_empty()) {
+                                sub.viols.push(Viol { class: "partial-record".into(), sig: format!("partial-record/after-{}", ev.sys.name), msg: format!("after a write by client {} the bucket {} contains a line that is not a whole record", ev.client, rel), step: ev.step, scenario: None });
+                            }
+                        }
+                    }
+                }
+            }
+        }
+        match p {
+            Pump::Decide(parked) => {
+                let i = sched.choose(&parked, tracer.step);
+                let (c, tid) = parked[i];
+                if let Some(lc) = last_client {
+                    if lc != c && parked.iter().any(|p| p.0 == lc) {
+                        sub.switches += 1;
+                    }
+                }
+                last_client = Some(c);
+                sub.decisions.push(c);
+                let ord = tracer.events.iter().filter(|e| e.client == c).count();
+                let action = fault_for(plan, c, ord).unwrap_or(Action::Exec);
+                if action != Action::Exec {
+                    faults_delivered += 1;
+                    let name = tracer.clients[c].threads[&tid].cur.as_ref().map(|s| s.name).unwrap_or("?");
+                    let kind = match &action {
+                        Action::Errno(e) => format!("errno.{}@{}", errno_name(*e), name),
+                        Action::Short(_) => format!("short_write@{}", name),
+                        Action::ShortThenErr(_, e) => format!("short_then_{}@{}", errno_name(*e), name),
+                        Action::KillEntry | Action::KillExit => "kill".to_string(),
+                        Action::ShortKill(_) => "torn_kill".to_string(),
+                        Action::Exec => String::new(),
+                    };
+                    *sub.faults.entry(kind).or_insert(0) += 1;
+                }
+                tracer.grant(c, tid, action);
+                if tracer.step > 60_000 {
+                    tracer.hang = true;
+                    tracer.kill_all();
+                    break;
+                }
+            }
+            Pump::Done => break,
+            Pump::Hang => {
+                tracer.kill_all();
+                break;
+            }
+        }
+    }
+    if tracer.ficlone_emulated > 0 {
+        *sub.faults.entry("ficlone_emulated".into()).or_insert(0) += tracer.ficlone_emulated;
+    }
+    if let Some(e) = &tracer.error {
+        sub.harness = Some(e.clone());
+    }
+    // results from the out files
+    for (ci, c) in clients.iter().enumerate() {
+        let n = c["steps"].as_array().map(|a| a.len()).unwrap_or(0);
+        let mut rs: Vec<Option<Value>> = vec![None; n];
+        let txt = std::fs::read_to_string(ctl.join(format!("c{ci}.out"))).unwrap_or_default();
+        for l in txt.lines() {
+            if let Some(rest) = l.strip_prefix("E ") {
+                if let Some((i, j)) = rest.split_once(' ') {
+                    if let (Ok(i), Ok(v)) = (i.parse::<usize>(), serde_json::from_str::<Value>(j)) {
+                        if i >= 1 && i - 1 < n {
+                            rs[i - 1] = Some(v);
+                        }
+                    }
+                }
+            }
+        }
+        sub.results.push(rs);
+    }
+    // normalised trace + hashes
+    let mut tmpnames = BTreeMap::new();
+    let mut h = 0xcbf29ce484222325u64;
+    let mut ih = 0x1234567u64;
+    for ev in &tracer.events {
+        let p1 = ev.sys.path.as_ref().map(|p| norm_path(p, &root_s, &mut tmpnames)).unwrap_or_default();
+        let p2 = ev.sys.path2.as_ref().map(|p| norm_path(p, &root_s, &mut tmpnames)).unwrap_or_default();
+        let line = format!("c{} #{} op{:?} {} {} {} len={:?} -> {} [{}]", ev.client, ev.ord, ev.op, ev.sys.name, p1, p2, ev.sys.len, if ev.ret == -9999 { "killed".to_string() } else { ev.ret.to_string() }, ev.action.label());
+        h = mix(h, hash_str(&line));
+        ih = mix(ih, mix(ev.client as u64, hash_str(ev.sys.name)));
+        sub.trace.push(line);
+    }
+    sub.hash = h;
+    sub.inter_hash = ih;
+    sub.steps = tracer.events.len() as u64 + tracer.passthrough;
+    // client status
+    for c in &tracer.clients {
+        let st = c.exit.clone().unwrap_or_default();
+        if tracer.hang && !c.killed {
+            *sub.probes.entry("watchdog_fired".into()).or_insert(0) += 1;
+        }
+        if st.starts_with("signal") && !c.killed {
+            sub.viols.push(Viol { class: "fault-surface".into(), sig: format!("fault-surface/worker-died/{}", st), msg: format!("client {} terminated abnormally: {}", c.idx, st), step: 0, scenario: None });
+        }
+    }
+    if tracer.hang {
+        let op = tracer.clients.iter().filter_map(|c| c.cur_op).next();
+        let opname = op.and_then(|i| sc["clients"][0]["steps"].get(i.saturating_sub(1))).and_then(|s| s["op"].as_str()).unwrap_or("?").to_string();
+        sub.viols.push(Viol { class: "fault-surface".into(), sig: format!("fault-surface/hang/{}", opname), msg: format!("a client made no progress within the watchdog (or exceeded the step budget) during {}", opname), step: 0, scenario: None });
+    }
+    // C15 bookkeeping: every mutating call, relevant or not
+    sub.events = tracer.events.clone();
+    let muts = tracer.all_mutations.clone();
+    c15_invariants(sc, &root_s, &muts, &mut sub);
+    let _ = faults_delivered;
+    Exec { it, sc, pres, sub, ctl }
+}
+
+/// I2 / I3 / key opaqueness over the complete list of mutating calls.
+fn c15_invariants(sc: &Value, root: &str, muts: &[(usize, Option<usize>, Sys, i64)], sub: &mut Sub) {
+    let cache = format!("{}/cache", root);
+    let clients = sc["clients"].as_array().cloned().unwrap_or_default();
+    let mut n_mut = 0u64;
+    for (c, op, sys, _) in muts {
+        let paths: Vec<&String> = [&sys.path, if sys.nr == SYS_SYMLINK || sys.nr == SYS_SYMLINKAT { &None } else { &sys.path2 }].into_iter().flatten().collect();
+        // rename/link: both ends are mutated/created; copy_file_range & FICLONE: only the destination (path)
+        let check: Vec<&String> = match sys.nr {
+            SYS_COPY_FILE_RANGE | SYS_SENDFILE | SYS_IOCTL => sys.path.iter().collect(),
+            SYS_LINK | SYS_LINKAT => sys.path2.iter().collect(),
+            _ => paths,
+        };
+        let st = op.and_then(|i| clients.get(*c).and_then(|cl| cl["steps"].get(i.wrapping_sub(1))));
+        let dest = st.and_then(|s| s["to"].as_str()).map(|t| normalize(&t.replace("$O", &format!("{}/out", root)).replace("$C", &cache).replace("$R", root)));
+        let opname = st.and_then(|s| s["op"].as_str()).unwrap_or("startup");
+        for p in check {
+            // the worker's own control files are not the library's doing
+            if p.contains("/ctl-") || p == "/dev/null" || p == "/dev/tty" || p.starts_with("/proc/") {
+                continue;
+            }
+            n_mut += 1;
+            let inside = p == &cache || p.starts_with(&format!("{}/", cache));
+            let is_dest = dest.as_ref().map(|d| d == p).unwrap_or(false);
+            if !inside && !is_dest {
+                sub.viols.push(Viol { class: "confinement".into(), sig: format!("confinement/{}/{}", opname, sys.name), msg: format!("{} issued {} on {} which is outside the cache directory and not the declared destination", opname, sys.name, p.replace(root, "$R")), step: 0, scenario: None });
+            }
+            let readonly = matches!(opname, "read" | "reader" | "metadata" | "find" | "exists" | "list" | "ls");
+            // background cleanup of an abandoned async writer (temp-file unlink on a pool thread) can land in the
+            // window of a later call: attribute it to the writer, not to the read-only call in progress
+            let late_cleanup = (sys.nr == SYS_UNLINK || sys.nr == SYS_UNLINKAT)
+                && p.starts_with(&format!("{}/tmp/.tmp", cache))
+                && op.map(|i| clients.get(*c).map(|cl| cl["steps"].as_array().map(|a| a.iter().take(i.saturating_sub(1)).any(|s| s["op"] == "write" && s["mode"] == "async")).unwrap_or(false)).unwrap_or(false)).unwrap_or(false);
+            if readonly && op.is_some() && !late_cleanup {
+                sub.viols.push(Viol { class: "readonly-mutates".into(), sig: format!("readonly-mutates/{}/{}", opname, sys.name), msg: format!("read-only call {} issued the mutating system call {} on {}", opname, sys.name, p.replace(root, "$R")), step: 0, scenario: None });
+            }
+            // key opaqueness: index paths touched during a keyed op are exactly the bucket of sha1(key) (or its ancestors)
+            if inside {
+                if let Some(rel) = p.strip_prefix(&format!("{}/", cache)) {
+                    if rel.starts_with("index-v5/") && rel.split('/').count() == 4 {
+                        if let Some(k) = st.and_then(|s| s.get("key")) {
+                            let key = if let Some(i) = k.as_u64() { sc["keys"][i as usize].as_str().unwrap_or("").to_string() } else { k.as_str().unwrap_or("").to_string() };
+                            if rel != hash::bucket_rel(&key) && opname != "clear" {
+                                sub.viols.push(Viol { class: "key-opaque".into(), sig: format!("key-opaque/{}", opname), msg: format!("{} for key {:?} touched index path {} instead of {}", opname, key, rel, hash::bucket_rel(&key)), step: 0, scenario: None });
+                            }
+                        }
+                    }
+                }
+            }
+        }
+    }
+    *sub.probes.entry("mutating_calls_seen".into()).or_insert(0) += n_mut;
+}
+
+fn mk_viol(class: &str, sig: String, msg: String) -> Viol {
+    Viol { class: class.to_string(), sig, msg, step: 0, scenario: None }
+}
+
+/// add content files present on disk (and hashing to their address) to the model
+fn sync_content_from_disk(it: &mut Interp) {
+    let d = disk::scan(&it.cache);
+    for cf in &d.content {
+        if cf.kind == disk::FileKind::Regular && cf.well_placed && cf.digest_ok {
+            let known = matches!(it.m.content.get(&cf.rel), Some(c) if c.state == CState::Pristine);
+            if !known {
+                if let Ok(b) = std::fs::read(it.cache.join(&cf.rel)) {
+                    it.m.content.insert(cf.rel.clone(), Content { orig: b, state: CState::Pristine, is_link: false });
+                }
+            }
+        }
+    }
+    let rels: Vec<String> = it.m.content.keys().cloned().collect();
+    for rel in rels {
+        if !d.content.iter().any(|c| c.rel == rel) {
+            if let Some(c) = it.m.content.get_mut(&rel) {
+                if c.state == CState::Pristine {
+                    c.state = CState::Missing;
+                }
+            }
+        }
+    }
+}
+
+/// the entry the victim op would create if it completed (None = tombstone / not keyed)
+fn would_be(it: &mut Interp, st: &Value, pre: &Pre) -> (Option<String>, Option<Option<Entry>>) {
+    let key = it.key(st);
+    let key = match key {
+        Some(k) => k,
+        None => return (None, None),
+    };
+    let saved_m = it.m.clone();
+    let saved_v = it.out.viols.len();
+    let saved_clock = it.clock;
+    let op = st["op"].as_str().unwrap_or("");
+    let synth = match op {
+        "write" | "link_to" | "index_insert" => json!({"r":"ok","sri":"?"}),
+        _ => json!({"r":"ok"}),
+    };
+    it.judge(st, &synth, pre.clone());
+    let newv = it.m.keys.get(&key).cloned();
+    it.m = saved_m;
+    it.out.viols.truncate(saved_v);
+    it.clock = saved_clock;
+    (Some(key), newv)
+}
+
+/// After a kill or an injected error: the victim key is exactly old or exactly new per the simulator's decoder.
+fn settle_victim(it: &mut Interp, st: &Value, pre: &Pre, sub: &mut Sub, how: &str) {
+    let opname = st["op"].as_str().unwrap_or("?").to_string();
+    let (key, newv) = would_be(it, st, pre);
+    sync_content_from_disk(it);
+    if let (Some(k), Some(newv)) = (key, newv) {
+        let old = it.m.keys.get(&k).cloned();
+        let d = disk::scan(&it.cache);
+        let lines = d.bucket_lines(&k);
+        let eff = fmt::effective(&lines, &k).and_then(|r| Entry::from_rec(&r));
+        let bucket_exists = d.buckets.contains_key(&hash::bucket_rel(&k));
+        let old_e = old.clone().flatten();
+        if eff == old_e {
+            *sub.probes.entry("victim_key_old".into()).or_insert(0) += 1;
+            // remove_fully may have deleted the content before dying: entry still there, content gone (documented multi-step)
+        } else if eff == newv {
+            *sub.probes.entry("victim_key_new".into()).or_insert(0) += 1;
+            match &newv {
+                Some(e) => {
+                    it.m.keys.insert(k.clone(), Some(e.clone()));
+                    it.m.inserted.push(e.clone());
+                    // content-before-index: a visible new entry has complete content
+                    let present = hash::content_rel(&e.sri).map(|rel| d.content.iter().any(|c| c.rel == rel && c.digest_ok)).unwrap_or(false);
+                    if !present && opname == "write" {
+                        sub.viols.push(mk_viol("crash-atomicity", format!("crash-atomicity/{}/new-entry-without-content/{}", opname, how), format!("after {} the new entry for {:?} is visible but its content {} is not completely stored", how, k, e.sri)));
+                    }
+                }
+                None => {
+                    if opname == "remove_opts" && st["fully"].as_bool() == Some(true) && !bucket_exists {
+                        it.m.keys.remove(&k);
+                    } else {
+                        it.m.keys.insert(k.clone(), None);
+                    }
+                }
+            }
+        } else {
+            sub.viols.push(mk_viol("crash-atomicity", format!("crash-atomicity/{}/neither-old-nor-new/{}", opname, how), format!("after {} key {:?} decodes to {:?}, which is neither the previous state {:?} nor the new one {:?}", how, k, eff, old_e, newv)));
+            it.m.keys.insert(k.clone(), eff);
+        }
+        if lines.iter().any(|l| l.rec.is_none() && l.end > l.start) {
+            *sub.probes.entry("torn_tail_left".into()).or_insert(0) += 1;
+            if lines.iter().any(|l| !l.utf8) {
+                *sub.probes.entry("torn_inside_utf8_char".into()).or_insert(0) += 1;
+            }
+        }
+    }
+    it.m.index_faulted = true;
+}
+
+fn take_viols(it: &mut Interp, sub: &mut Sub) {
+    let vs: Vec<Viol> = it.out.viols.drain(..).collect();
+    sub.viols.extend(vs);
+}
+
+fn finish_exec(mut ex: Exec, sc_for_replay: &Value) -> Sub {
+    // end-of-run disk checks (I1 full scan, decode == model) through the interpreter
+    let ctl = ex.ctl.clone();
+    let mut sub = std::mem::take(&mut ex.sub);
+    for (k, v) in ex.it.out.faults.clone() {
+        *sub.faults.entry(k).or_insert(0) += v;
+    }
+    for (k, v) in ex.it.out.probes.clone() {
+        *sub.probes.entry(k).or_insert(0) += v;
+    }
+    sub.steps += ex.it.out.steps;
+    let harness = ex.it.out.harness.clone();
+    let out = ex.it.finish();
+    sub.viols.extend(out.viols);
+    if sub.harness.is_none() {
+        sub.harness = harness.or(out.harness);
+    }
+    let _ = std::fs::remove_dir_all(&ctl);
+    for v in sub.viols.iter_mut() {
+        if v.scenario.is_none() {
+            v.scenario = Some(sc_for_replay.clone());
+        }
+    }
+    sub
+}
+
+/// Run one explicit plan (census when it has no faults) and apply the oracle of the scenario's check.
+pub fn run_plan(ctx: &mut Ctx, sc: &Value, plan: &Value, tag: &str) -> Sub {
+    let mut replay = sc.clone();
+    replay["plan"] = json!({"kind":"single","faults":plan["faults"],"schedule":plan["schedule"]});
+    let mut ex = exec_traced(ctx, sc, plan, tag);
+    if ex.sub.harness.is_some() {
+        return finish_exec(ex, &replay);
+    }
+    let oracle = sc["oracle"].as_str().unwrap_or("strict").to_string();
+    let clients = sc["clients"].as_array().cloned().unwrap_or_default();
+    let has_fault = plan["faults"].as_array().map(|a| !a.is_empty()).unwrap_or(false);
+    let fault_client = plan["faults"][0]["client"].as_u64().unwrap_or(0) as usize;
+    // record explicit decisions for exact replay of schedules
+    if clients.len() > 1 {
+        replay["plan"]["schedule"] = json!({"policy":"explicit","decisions":ex.sub.decisions});
+    }
+    if has_fault && sc["lenient_after_fault"].as_bool().unwrap_or(false) {
+        // the program continues after the injected error on a state the model cannot know exactly:
+        // only the trace invariants (and panics/hangs) are judged in such runs
+        ex.it.lenient = true;
+    }
+    if oracle == "serial" {
+        judge_serial(&mut ex, &clients);
+    } else {
+        // which op of the faulted client received the fault (by events)
+        let faulted_op: Option<usize> = ex.sub.events.iter().find(|e| e.action != Action::Exec && e.client == fault_client).and_then(|e| e.op).map(|i| i.saturating_sub(1));
+        let killed = ex.sub.events.iter().any(|e| matches!(e.action, Action::KillEntry | Action::KillExit | Action::ShortKill(_)));
+        for (ci, c) in clients.iter().enumerate() {
+            let steps = c["steps"].as_array().cloned().unwrap_or_default();
+            for (si, st) in steps.iter().enumerate() {
+                let mut st2 = st.clone();
+                st2["bin"] = c["bin"].clone();
+                let pre = ex.pres[ci][si].clone();
+                let r = ex.sub.results[ci][si].clone();
+                let is_victim = has_fault && ci == fault_client && Some(si) == faulted_op;
+                match r {
+                    Some(r) if !is_victim => {
+                        ex.it.judge(&st2, &r, pre);
+                    }
+                    Some(r) => {
+                        // a fault was delivered inside this call
+                        let opname = st2["op"].as_str().unwrap_or("?").to_string();
+                        let fl = format!("{}-{}", st2["bin"].as_str().unwrap_or("?"), st2["mode"].as_str().unwrap_or("sync"));
+                        let fault_label = ex.sub.events.iter().find(|e| e.action != Action::Exec).map(|e| format!("{}@{}", e.action.label(), e.sys.name)).unwrap_or_default();
+                        match r["r"].as_str().unwrap_or("") {
+                            "ok" => {
+                                // truthful success: judged strictly
+                                let lenient_ok = matches!(opname.as_str(), "exists" | "list" | "ls") ;
+                                if lenient_ok {
+                                    // exists() has no error channel; list reports errors as items
+                                    if opname != "exists" && r["errs"].as_array().map(|a| a.is_empty()).unwrap_or(true) {
+                                        ex.it.judge(&st2, &r, pre);
+                                    }
+                                } else {
+                                    ex.it.judge(&st2, &r, pre.clone());
+                                    // the fault may have been absorbed legitimately (fallback, retry): fine if strict judging passed
+                                }
+                                *ex.sub.probes.entry("fault_absorbed_ok".into()).or_insert(0) += 1;
+                            }
+                            "err" => {
+                                *ex.sub.probes.entry("fault_surfaced_err".into()).or_insert(0) += 1;
+                                settle_victim(&mut ex.it, &st2, &pre, &mut ex.sub, "an injected error");
+                                if matches!(opname.as_str(), "copy" | "copy_unchecked" | "hard_link" | "hard_link_unchecked" | "reflink" | "reflink_unchecked") {
+                                    // a failed extraction may leave a partial destination file (the destination is the caller's);
+                                    // nothing to assert about it beyond confinement
+                                }
+                            }
+                            other => {
+                                ex.sub.viols.push(mk_viol("fault-surface", format!("fault-surface/{}/{}/{}/{}", opname, fl, other, fault_label), format!("{} with {} injected did not return: {}", opname, fault_label, r)));
+                                settle_victim(&mut ex.it, &st2, &pre, &mut ex.sub, "an injected error");
+                            }
+                        }
+                        if r.get("bg_panic").is_some() {
+                            ex.sub.viols.push(mk_viol("fault-surface", format!("fault-surface/{}/{}/bgpanic/{}", opname, fl, fault_label), format!("{} with {} injected: a background thread panicked: {}", opname, fault_label, r["bg_panic"])));
+                        }
+                    }
+                    None => {
+                        // no result: the client was killed (or died) during this op
+                        if killed || ex.sub.viols.iter().any(|v| v.class == "fault-surface") {
+                            settle_victim(&mut ex.it, &st2, &pre, &mut ex.sub, "a kill");
+                        } else if !has_fault {
+                            ex.sub.viols.push(mk_viol("fault-surface", "fault-surface/no-result".into(), format!("client {} produced no result for step {} ({})", ci, si, st2["op"])));
+                        } else {
+                            settle_victim(&mut ex.it, &st2, &pre, &mut ex.sub, "a fault");
+                        }
+                        break;
+                    }
+                }
+            }
+        }
+    }
+    take_viols(&mut ex.it, &mut ex.sub);
+    // post phase: fresh fault-free processes (the persistent workers) audit, continue, retry
+    let post = sc["post"].as_array().cloned().unwrap_or_default();
+    let n0 = ex.it.out.viols.len();
+    ex.it.run_steps(&post, 1000);
+    let _ = n0;
+    if has_fault && sc["retry"].as_bool().unwrap_or(false) {
+        // once the fault is gone the same call succeeds
+        let c = &clients[fault_client];
+        if let Some(op_i) = ex.sub.events.iter().find(|e| e.action != Action::Exec).and_then(|e| e.op).map(|i| i.saturating_sub(1)) {
+            if let Some(st) = c["steps"].get(op_i) {
+                let mut st2 = st.clone();
+                st2["bin"] = c["bin"].clone();
+                if let Some(t) = st2.get("to").and_then(|t| t.as_str()).map(|t| t.to_string()) {
+                    st2["to"] = json!(format!("{}-retry", t));
+                }
+                let before = ex.it.out.viols.len();
+                ex.it.api_step(&st2);
+                for v in ex.it.out.viols.iter_mut().skip(before) {
+                    v.sig = format!("retry/{}", v.sig);
+                    v.class = "retry".into();
+                }
+            }
+        }
+    }
+    // distinctness rule
+    let delivered = ex.sub.events.iter().any(|e| e.action != Action::Exec);
+    ex.sub.nontrivial = match sc["check"].as_str().unwrap_or("") {
+        "C03" => delivered && ex.sub.events.iter().any(|e| e.sys.path.as_deref().map(|p| p.contains("/tmp/.tmp")).unwrap_or(false)),
+        "C04" | "C13" => delivered,
+        "C07" => ex.sub.switches >= 1,
+        "C15" => ex.sub.probes.get("mutating_calls_seen").cloned().unwrap_or(0) > 0,
+        _ => true,
+    };
+    finish_exec(ex, &replay)
+}
+
+/// C07: accept iff some sequential order of the operations explains all results and the final state.
+fn judge_serial(ex: &mut Exec, clients: &[Value]) {
+    let n = clients.len();
+    let mut perm: Vec<usize> = (0..n).collect();
+    let mut perms: Vec<Vec<usize>> = Vec::new();
+    permute(&mut perm, 0, &mut perms);
+    // observe the final state once through the library (fault-free, fresh calls)
+    let post = ex.sc["final_observe"].as_array().cloned().unwrap_or_default();
+    let mut observed: Vec<(Value, Value, Pre)> = Vec::new();
+    for st in &post {
+        let (bin, op, pre) = ex.it.prepare(st);
+        let r = ex.it.call(&bin, &op);
+        observed.push((st.clone(), r, pre));
+    }
+    let base_m = ex.it.m.clone();
+    let base_v = ex.it.out.viols.len();
+    let base_clock = ex.it.clock;
+    let mut best: Option<(Vec<usize>, Vec<Viol>)> = None;
+    for p in perms {
+        ex.it.m = base_m.clone();
+        ex.it.clock = base_clock;
+        ex.it.out.viols.truncate(base_v);
+        for &ci in &p {
+            let c = &clients[ci];
+            for (si, st) in c["steps"].as_array().cloned().unwrap_or_default().iter().enumerate() {
+                let mut st2 = st.clone();
+                st2["bin"] = c["bin"].clone();
+                match &ex.sub.results[ci][si] {
+                    Some(r) => ex.it.judge(&st2, r, ex.pres[ci][si].clone()),
+                    None => ex.it.out.viols.push(mk_viol("serializability", "serializability/no-result".into(), format!("client {} produced no result", ci))),
+                }
+            }
+        }
+        // content presence: what is on disk decides between orders of write/remove_hash
+        for (st, r, pre) in &observed {
+            ex.it.judge(st, r, pre.clone());
+        }
+        let vs: Vec<Viol> = ex.it.out.viols.drain(base_v..).filter(|v| v.class != "abandon-trace" && v.class != "format").collect();
+        let better = match &best {
+            None => true,
+            Some((_, b)) => vs.len() < b.len(),
+        };
+        if better {
+            best = Some((p.clone(), vs));
+        }
+        if best.as_ref().map(|b| b.1.is_empty()).unwrap_or(false) {
+            break;
+        }
+    }
+    // leave the model of the best order in place (final checks run against it)
+    if let Some((p, vs)) = best {
+        ex.it.m = base_m.clone();
+        ex.it.clock = base_clock;
+        ex.it.out.viols.truncate(base_v);
+        for &ci in &p {
+            let c = &clients[ci];
+            for (si, st) in c["steps"].as_array().cloned().unwrap_or_default().iter().enumerate() {
+                let mut st2 = st.clone();
+                st2["bin"] = c["bin"].clone();
+                if let Some(r) = &ex.sub.results[ci][si] {
+                    ex.it.judge(&st2, r, ex.pres[ci][si].clone());
+                }
+            }
+        }
+        ex.it.out.viols.truncate(base_v);
+        if !vs.is_empty() {
+            let ops: Vec<String> = clients.iter().map(|c| c["steps"][0]["op"].as_str().unwrap_or("?").to_string()).collect();
+            let first = &vs[0];
+            ex.sub.viols.push(mk_viol("serializability", format!("serializability/{}/{}", ops.join("+"), first.class), format!("no sequential order of the {} concurrent operations explains the observed results and final state; best order {:?} still fails with: {} | results: {:?}", clients.len(), p, first.msg, ex.sub.results)));
+        }
+    }
+}
+
+fn permute(a: &mut Vec<usize>, k: usize, out: &mut Vec<Vec<usize>>) {
+    if k == a.len() {
+        out.push(a.clone());
+        return;
+    }
+    for i in k..a.len() {
+        a.swap(k, i);
+        permute(a, k + 1, out);
+        a.swap(k, i);
+    }
+}
+
+// ------------------------------------------------------------------------------------------ enumeration of fault plans
+fn errnos_for(sys: &Sys, tier: &str) -> Vec<i32> {
+    let quick = tier == "quick";
+    let v: Vec<i32> = match sys.nr {
+        SYS_OPEN | SYS_OPENAT | SYS_OPENAT2 | SYS_CREAT => {
+            let mut v = vec![libc::EIO, libc::EACCES, libc::EMFILE];
+            if !quick {
+                v.push(libc::ENFILE);
+                v.push(libc::ENOENT);
+            }
+            if sys.creates {
+                v.push(libc::ENOSPC);
+            }
+            v
+        }
+        SYS_MKDIR | SYS_MKDIRAT => vec![libc::EACCES, libc::ENOSPC, libc::EIO],
+        SYS_WRITE | SYS_PWRITE64 | SYS_WRITEV => vec![libc::EIO, libc::ENOSPC, libc::EDQUOT, libc::EINTR],
+        SYS_READ | SYS_PREAD64 | SYS_READV => vec![libc::EIO, libc::EINTR],
+        SYS_RENAME | SYS_RENAMEAT | SYS_RENAMEAT2 => vec![libc::EACCES, libc::EIO, libc::ENOSPC, libc::EXDEV],
+        SYS_UNLINK | SYS_UNLINKAT | SYS_RMDIR => vec![libc::EACCES, libc::EIO],
+        SYS_FALLOCATE => vec![libc::ENOSPC, libc::EOPNOTSUPP, libc::EINTR],
+        SYS_FTRUNCATE => vec![libc::EIO],
+        SYS_MMAP => vec![libc::ENOMEM, libc::ENODEV],
+        SYS_STAT | SYS_LSTAT | SYS_FSTAT | SYS_NEWFSTATAT | SYS_STATX | SYS_ACCESS | SYS_FACCESSAT | SYS_FACCESSAT2 => vec![libc::EACCES, libc::EIO],
+        SYS_GETDENTS | SYS_GETDENTS64 => vec![libc::EIO],
+        SYS_COPY_FILE_RANGE | SYS_SENDFILE => vec![libc::EIO, libc::ENOSPC, libc::EXDEV],
+        SYS_LINK | SYS_LINKAT | SYS_SYMLINK | SYS_SYMLINKAT => vec![libc::EPERM, libc::EMLINK, libc::EEXIST],
+        SYS_READLINK | SYS_READLINKAT => vec![libc::EIO],
+        SYS_IOCTL => vec![libc::EOPNOTSUPP, libc::EIO],
+        _ => vec![libc::EIO],
+    };
+    if quick && v.len() > 3 {
+        v[..3].to_vec()
+    } else {
+        v
+    }
+}
+
+fn enumerate_faults(sc: &Value, census: &Sub, tier: &str) -> Vec<Value> {
+    let mode = sc["plan"]["mode"].as_str().unwrap_or("kill");
+    let victim_client = 0usize;
+    let nsteps = sc["clients"][0]["steps"].as_array().map(|a| a.len()).unwrap_or(1);
+    let victim_op = sc["plan"]["victim_op"].as_u64().map(|v| v as usize).unwrap_or(nsteps - 1) + 1; // +1: op 0 is the clock line
+    let mut out = Vec::new();
+    for ev in census.events.iter().filter(|e| e.client == victim_client && e.op == Some(victim_op)) {
+        let at = ev.ord;
+        let f = |a: Action| json!({"client": victim_client, "at": at, "action": a.to_json()});
+        match mode {
+            "kill" => {
+                out.push(f(Action::KillEntry));
+                if ev.sys.data_write {
+                    let len = if ev.ret > 0 { ev.ret as u64 } else { ev.sys.len.unwrap_or(0) };
+                    let is_index = ev.sys.path.as_deref().map(|p| p.contains("/index-v5/")).unwrap_or(false);
+                    let every = sc["plan"]["torn_index_every_length"].as_bool().unwrap_or(false) && is_index;
+                    let mut ks: Vec<u64> = if every {
+                        (0..=len).collect()
+                    } else if tier == "quick" || len > 512 {
+                        let mut v = vec![0, 1, len / 2, len.saturating_sub(1)];
+                        if tier != "quick" {
+                            let mut r = Rng::new(mix(len, at as u64));
+                            for _ in 0..12 {
+                                v.push(r.below(len.max(1)));
+                            }
+                        }
+                        v
+                    } else {
+                        (0..len).collect()
+                    };
+                    ks.sort();
+                    ks.dedup();
+                    for k in ks {
+                        if k <= len {
+                            out.push(f(Action::ShortKill(k)));
+                        }
+                    }
+                }
+            }
+            _ => {
+                for e in errnos_for(&ev.sys, tier) {
+                    out.push(f(Action::Errno(e)));
+                }
+                if ev.sys.data_write {
+                    let len = if ev.ret > 0 { ev.ret as u64 } else { ev.sys.len.unwrap_or(0) };
+                    if len >= 2 {
+                        out.push(f(Action::ShortThenErr(len / 2, libc::ENOSPC)));
+                        if tier != "quick" {
+                            out.push(f(Action::ShortThenErr(1, libc::EIO)));
+                        }
+                    }
+                }
+            }
+        }
+    }
+    out
+}
+
+pub fn run_scenario(ctx: &mut Ctx, _spec: &CheckSpec, sc: &Value, run_id: &str) -> Outcome {
+    let mut out = Outcome::default();
+    let tier = sc["tier"].as_str().unwrap_or("quick").to_string();
+    let kind = sc["plan"]["kind"].as_str().unwrap_or("single").to_string();
+    let mut absorb = |out: &mut Outcome, sub: Sub, count_hash: bool| {
+        out.subruns += 1;
+        out.steps += sub.steps;
+        for (k, v) in sub.faults {
+            *out.faults.entry(k).or_insert(0) += v;
+        }
+        for (k, v) in sub.probes {
+            *out.probes.entry(k).or_insert(0) += v;
+        }
+        if sub.nontrivial && count_hash {
+            out.sub_hashes.push(sub.hash);
+        }
+        if sub.inter_hash != 0 && sub.switches > 0 {
+            out.probes.insert("interleaving_hash_lo".into(), sub.inter_hash);
+        }
+        out.viols.extend(sub.viols);
+        if out.harness.is_none() {
+            out.harness = sub.harness;
+        }
+        if out.log.len() < 40 {
+            for l in sub.trace.iter().take(40) {
+                out.log.push(json!(l));
+            }
+        }
+    };
+    match kind.as_str() {
+        "enumerate" => {
+            let census_plan = json!({"faults":[],"schedule":{"policy":"first"}});
+            let census = run_plan(ctx, sc, &census_plan, &format!("{run_id}c"));
+            let faults = enumerate_faults(sc, &census, &tier);
+            let census_trace = census.trace.clone();
+            if census.harness.is_some() {
+                absorb(&mut out, census, false);
+                return out;
+            }
+            // the census itself is a fault-free execution: its violations count
+            let mut c2 = Sub::default();
+            std::mem::swap(&mut c2, &mut { census });
+            absorb(&mut out, c2, false);
+            out.log = census_trace.iter().take(60).map(|l| json!(l)).collect();
+            for (i, f) in faults.iter().enumerate() {
+                let plan = json!({"faults":[f],"schedule":{"policy":"first"}});
+                let sub = run_plan(ctx, sc, &plan, &format!("{run_id}f{i}"));
+                absorb(&mut out, sub, true);
+                if out.harness.is_some() {
+                    break;
+                }
+            }
+            *out.probes.entry("fault_points_enumerated".into()).or_insert(0) += faults.len() as u64;
+        }
+        _ => {
+            let plan = sc["plan"].clone();
+            let sub = run_plan(ctx, sc, &plan, run_id);
+            absorb(&mut out, sub, true);
+        }
+    }
+    out
+}
+
+pub fn minimise(ctx: &mut Ctx, _spec: &CheckSpec, sc: &Value, sig: &str, budget_s: u64) -> Value {
+    // sysim replays are already explicit single plans; shrink the surrounding scenario
+    let start = std::time::Instant::now();
+    let mut cur = sc.clone();
+    let repro = |ctx: &mut Ctx, c: &Value| -> bool {
+        let plan = c["plan"].clone();
+        let sub = run_plan(ctx, c, &plan, "min");
+        sub.viols.iter().any(|v| v.sig == sig)
+    };
+    if cur["plan"]["kind"] != "single" {
+        return cur;
+    }
+    for field in ["post", "prelude"] {
+        let n = cur[field].as_array().map(|a| a.len()).unwrap_or(0);
+        for i in (0..n).rev() {
+            if start.elapsed().as_secs() > budget_s {
+                return cur;
+            }
+            let mut cand = cur.clone();
+            cand[field].as_array_mut().unwrap().remove(i);
+            if repro(ctx, &cand) {
+                cur = cand;
+            }
+        }
+    }
+    // drop clients that are not needed (C07)
+    let nc = cur["clients"].as_array().map(|a| a.len()).unwrap_or(0);
+    if nc > 2 {
+        for i in (0..nc).rev() {
+            let mut cand = cur.clone();
+            cand["clients"].as_array_mut().unwrap().remove(i);
+            cand["plan"]["schedule"] = json!({"policy":"first"});
+            if start.elapsed().as_secs() <= budget_s && repro(ctx, &cand) {
+                cur = cand;
+                break;
+            }
+        }
+    }
+    cur
+}
+
+// ------------------------------------------------------------------------------------------ generators
+fn audits_all(what: &[&str]) -> Vec<Value> {
+    FLAVS.iter().map(|f| json!({"k":"audit","bin":f.0,"mode":f.1,"what":what})).collect()
+}
+
+fn client_flavs() -> [(&'static str, &'static str); 5] {
+    FLAVS
+}
+
+fn victim_write(rng: &mut Rng, keyed: bool, vi: usize, len: u64, ki: usize) -> Value {
+    let entry = *rng.pick(&["write", "write", "opts", "opts", "create", "write_algo"]);
+    let entry = if !keyed && entry == "create" { "opts" } else { entry };
+    let mut st = json!({"k":"api","op":"write","entry":entry,"val":vi});
+    if keyed {
+        st["key"] = json!(ki);
+    }
+    if entry == "write_algo" {
+        st["algo"] = json!(*rng.pick(&ALGOS));
+    }
+    if entry == "opts" {
+        let mut o = json!({});
+        if rng.chance(1, 2) {
+            o["size"] = json!(len);
+        }
+        if rng.chance(1, 3) {
+            o["algo"] = json!(*rng.pick(&ALGOS));
+        }
+        if keyed && rng.chance(1, 2) {
+            o["meta"] = json!({"caf\u{e9}": "\u{65e5}\u{672c}", "n": 1});
+            o["raw"] = json!("00ff10");
+        }
+        if keyed {
+            o["time"] = json!("4242");
+        }
+        st["opts"] = o;
+    }
+    if entry == "opts" || entry == "create" {
+        if len > 0 && rng.chance(1, 2) {
+            let a = rng.range(1, len.max(2) - 1).min(len);
+            let mut c = vec![a, len - a];
+            if rng.chance(1, 3) && c[1] > 1 {
+                let b = c[1] / 2;
+                c = vec![a, b, len - a - b];
+            }
+            st["chunks"] = json!(c);
+        }
+    }
+    st
+}
+
+const SYS_SIZES: [u64; 10] = [0, 1, 10, 300, 5000, 70_000, 1048575, 1048576, 1048577, 2_200_000];
+
+pub fn generate(id: &str, tier: &str, r: u64, rng: &mut Rng) -> Value {
+    let mut sc = match id {
+        "C03" => gen_c03(rng, r),
+        "C04" => gen_c04(rng, r),
+        "C13" => gen_c13(rng, r),
+        "C15" => gen_c15(rng, r),
+        "C07" => gen_c07(rng, r, tier),
+        _ => json!({}),
+    };
+    sc["check"] = json!(id);
+    sc["tier"] = json!(tier);
+    if sc.get("clock0").is_none() {
+        sc["clock0"] = json!((1_500_000_000_000u64 + rng.below(1 << 38)).to_string());
+    }
+    sc
+}
+
+fn gen_c03(rng: &mut Rng, r: u64) -> Value {
+    let keys = vec!["victim-key".to_string(), "other".to_string()];
+    // sizes around the mmap threshold appear in every 4th shape
+    let len = if r % 4 == 3 { *rng.pick(&SYS_SIZES[6..]) } else { *rng.pick(&SYS_SIZES[..6]) };
+    let vals = vec![json!({"seed": rng.next_u64() >> 1, "len": len}), json!({"seed": rng.next_u64() >> 1, "len": 40})];
+    let f = client_flavs()[(r % 5) as usize];
+    let keyed = rng.chance(2, 3);
+    let mut prelude = Vec::new();
+    let warm = rng.chance(2, 3);
+    if warm {
+        prelude.push(json!({"k":"api","op":"write","entry":"write","key":1,"val":1,"bin":"sync","mode":"sync"}));
+    }
+    let exists_already = rng.chance(1, 4);
+    if exists_already {
+        // the address already exists: re-write of identical data under the same algorithm as the victim's default
+        prelude.push(json!({"k":"api","op":"write","entry":"write","val":0,"bin":"sync","mode":"sync"}));
+    }
+    let mut v = victim_write(rng, keyed, 0, len, 0);
+    v["mode"] = json!(f.1);
+    let mut post = Vec::new();
+    for fl in PURE {
+        post.push(json!({"k":"audit","bin":fl.0,"mode":fl.1,"what":["metadata","read","read_hash","exists"]}));
+    }
+    json!({"keys":keys,"vals":vals,"prelude":prelude,"clients":[{"bin":f.0,"steps":[v]}],"post":post,
+           "plan":{"kind":"enumerate","mode":"kill"},"oracle":"fault"})
+}
+
+fn gen_c04(rng: &mut Rng, r: u64) -> Value {
+    let keys = vec![(*rng.pick(&["k\u{e9}y-\u{65e5}\u{672c}", "plain", "\u{1f980}crab", "a\tb"])).to_string(), "bystander-\u{e9}".to_string()];
+    let len = *rng.pick(&[0u64, 7, 300, 5000]);
+    let vals = vec![json!({"seed": rng.next_u64() >> 1, "len": len}), json!({"seed": rng.next_u64() >> 1, "len": 33}), json!({"seed": rng.next_u64() >> 1, "len": 12})];
+    let f = client_flavs()[(r % 5) as usize];
+    let mut prelude = Vec::new();
+    // bystander whose record precedes the victim's in time
+    prelude.push(json!({"k":"api","op":"write","entry":"opts","key":1,"val":1,"opts":{"time":"1","meta":{"b":"\u{e9}"}},"bin":"tokio","mode":"async"}));
+    match r / 5 % 3 {
+        0 => {}
+        1 => prelude.push(json!({"k":"api","op":"write","entry":"opts","key":0,"val":1,"opts":{"time":"2","meta":"old-\u{e9}"},"bin":"astd","mode":"async"})),
+        _ => {
+            prelude.push(json!({"k":"api","op":"write","entry":"write","key":0,"val":1,"bin":"sync","mode":"sync"}));
+            prelude.push(json!({"k":"api","op":"remove","key":0,"bin":"sync","mode":"sync"}));
+        }
+    }
+    let mut v = match rng.below(5) {
+        0 => json!({"k":"api","op":"remove","key":0}),
+        1 => json!({"k":"api","op":"remove_opts","fully":false,"key":0}),
+        _ => victim_write(rng, true, 0, len, 0),
+    };
+    v["mode"] = json!(f.1);
+    let mut post = audits_all(&["metadata", "read", "list"]);
+    // continuation history after restart
+    let fc = flav(rng);
+    match rng.below(3) {
+        0 => post.push(json!({"k":"api","op":"write","entry":"opts","key":0,"val":2,"opts":{"time":"9","meta":{"again":"\u{65e5}"}},"bin":fc.0,"mode":fc.1})),
+        1 => post.push(json!({"k":"api","op":"remove","key":0,"bin":fc.0,"mode":fc.1})),
+        _ => {
+            post.push(json!({"k":"api","op":"write","entry":"write","key":1,"val":2,"bin":fc.0,"mode":fc.1}));
+            post.push(json!({"k":"api","op":"write","entry":"write","key":0,"val":2,"bin":fc.0,"mode":fc.1}));
+        }
+    }
+    post.extend(audits_all(&["metadata", "read", "list"]));
+    json!({"keys":keys,"vals":vals,"prelude":prelude,"clients":[{"bin":f.0,"steps":[v]}],"post":post,
+           "plan":{"kind":"enumerate","mode":"kill","torn_index_every_length":true},"oracle":"fault"})
+}
+
+fn gen_c13(rng: &mut Rng, r: u64) -> Value {
+    let keys = vec!["k0".to_string(), "k1-\u{e9}".to_string(), "never".to_string()];
+    let big_content = rng.chance(1, 4);
+    let len0 = if big_content { *rng.pick(&[20_000u64, 70_000, 1048577]) } else { *rng.pick(&[0u64, 9, 300, 5000]) };
+    let vals = vec![json!({"seed": rng.next_u64() >> 1, "len": len0}), json!({"seed": rng.next_u64() >> 1, "len": 50}), json!({"seed": rng.next_u64() >> 1, "len": 7})];
+    let f = client_flavs()[(r % 5) as usize];
+    let mut prelude = Vec::new();
+    prelude.push(json!({"k":"api","op":"write","entry":"write","key":1,"val":1,"bin":"sync","mode":"sync"}));
+    let present = rng.chance(3, 4);
+    if present {
+        prelude.push(json!({"k":"api","op":"write","entry":"write","key":0,"val":0,"bin":"sync","mode":"sync"}));
+    }
+    // a bucket larger than one 8 KiB reader buffer: many rewrites with bulky metadata
+    if rng.chance(1, 4) {
+        for i in 0..30 {
+            prelude.push(json!({"k":"api","op":"write","entry":"opts","key":0,"val":0,"opts":{"time":i.to_string(),"meta":{"pad":"x".repeat(280)}},"bin":"sync","mode":"sync"}));
+        }
+    }
+    let victim = match r / 5 % 14 {
+        0 | 1 => victim_write(rng, true, 0, len0, 0),
+        2 => victim_write(rng, false, 0, len0, 0),
+        3 => json!({"k":"api","op":"read","key":0}),
+        4 => json!({"k":"api","op":"reader","key":0,"bufs":[4096]}),
+        5 => json!({"k":"api","op":"read","addr":{"val":0,"algo":"sha256"}}),
+        6 => json!({"k":"api","op":"copy","key":0,"to":"$O/copied"}),
+        7 => json!({"k":"api","op":*rng.pick(&["hard_link","copy_unchecked","hard_link_unchecked"]),"key":0,"to":"$O/linked"}),
+        8 => json!({"k":"api","op":"remove","key":0}),
+        9 => json!({"k":"api","op":"remove_hash","addr":{"val":0,"algo":"sha256"}}),
+        10 => json!({"k":"api","op":"list"}),
+        11 => json!({"k":"api","op":"metadata","key":0}),
+        12 => json!({"k":"api","op":"remove_opts","fully":true,"key":0}),
+        _ => victim_write(rng, true, 2, 7, 0),
+    };
+    let mut v = victim;
+    v["mode"] = json!(if v["op"] == "list" { "sync" } else { f.1 });
+    let mut post = Vec::new();
+    for fl in PURE {
+        post.push(json!({"k":"audit","bin":fl.0,"mode":fl.1,"what":["metadata","read","read_hash","exists","list"]}));
+    }
+    json!({"keys":keys,"vals":vals,"prelude":prelude,"clients":[{"bin":f.0,"steps":[v]}],"post":post,"retry":true,
+           "plan":{"kind":"enumerate","mode":"errno"},"oracle":"fault"})
+}
+
+fn gen_c15(rng: &mut Rng, _r: u64) -> Value {
+    let nk = rng.range(2, 4) as usize;
+    let keys = pick_keys(rng, nk, true);
+    let vals = mk_vals(rng, 2, 30_000);
+    let f = flav(rng);
+    let mut steps = Vec::new();
+    let n = rng.range(3, 10);
+    for i in 0..n {
+        let ki = rng.idx(nk);
+        let vi = rng.idx(2);
+        let len = vals[vi]["len"].as_u64().unwrap_or(0);
+        let st = match rng.below(20) {
+            0..=5 => {
+                let wcfg = WriteCfg { by_hash_pct: 20, rich_opts: true, declare_size_pct: 40, algos: true, ends: false };
+                let k = if rng.chance(4, 5) { Some(ki) } else { None };
+                let mut w = write_step(rng, k, vi, len, &wcfg);
+                if rng.chance(1, 6) && w["entry"] == "opts" {
+                    w["end"] = json!("drop");
+                }
+                w
+            }
+            6 | 7 => json!({"k":"api","op":"read","key":ki}),
+            8 => json!({"k":"api","op":"reader","key":ki,"bufs":[4096]}),
+            9 => json!({"k":"api","op":"metadata","key":ki}),
+            10 => json!({"k":"api","op":"exists","addr":{"val":vi,"algo":"sha256"}}),
+            11 => json!({"k":"api","op":"list"}),
+            12 => json!({"k":"api","op":"copy","key":ki,"to":format!("$O/x{i}")}),
+            13 => json!({"k":"api","op":*rng.pick(&["hard_link","reflink","copy_unchecked"]),"key":ki,"to":format!("$O/x{i}")}),
+            14 => json!({"k":"api","op":"remove","key":ki}),
+            15 => json!({"k":"api","op":"remove_hash","addr":{"val":vi,"algo":"sha256"}}),
+            16 => json!({"k":"api","op":"remove_opts","fully":true,"key":ki}),
+            17 => json!({"k":"api","op":"clear"}),
+            18 => json!({"k":"api","op":"find","key":ki}),
+            _ => json!({"k":"api","op":"read","addr":{"val":vi,"algo":"sha256"}}),
+        };
+        let mut st = st;
+        st["mode"] = json!(if st["op"] == "list" { "sync" } else { f.1 });
+        steps.push(st);
+    }
+    let style = *rng.pick(&["plain", "plain", "trailing_slash", "dotted", "dotdot"]);
+    let faults: Vec<Value> = if rng.chance(1, 2) { vec![json!({"client":0,"at":rng.below(40),"action":{"a":"errno","e":*rng.pick(&[libc::EIO, libc::EACCES, libc::ENOSPC])}})] } else { vec![] };
+    let oracle = if faults.is_empty() { "strict" } else { "fault" };
+    json!({"keys":keys,"vals":vals,"cache_style":style,"prelude":[],"clients":[{"bin":f.0,"steps":steps}],"post":[],
+           "plan":{"kind":"single","faults":faults,"schedule":{"policy":"first"}},"oracle":oracle,"lenient_after_fault":true})
+}
+
+fn gen_c07(rng: &mut Rng, _r: u64, tier: &str) -> Value {
+    let keys = vec!["shared".to_string(), "other".to_string()];
+    let vals = vec![json!({"seed": rng.next_u64() >> 1, "len": *rng.pick(&[0u64, 5, 300, 9000])}), json!({"seed": rng.next_u64() >> 1, "len": *rng.pick(&[6u64, 40, 2000])}), json!({"seed": rng.next_u64() >> 1, "len": 17})];
+    let mut prelude = Vec::new();
+    match rng.below(4) {
+        0 => {}
+        1 => prelude.push(json!({"k":"api","op":"write","entry":"write","key":0,"val":2,"bin":"sync","mode":"sync"})),
+        2 => {
+            prelude.push(json!({"k":"api","op":"write","entry":"write","key":0,"val":2,"bin":"sync","mode":"sync"}));
+            prelude.push(json!({"k":"api","op":"write","entry":"write","key":1,"val":0,"bin":"astd","mode":"async"}));
+        }
+        _ => prelude.push(json!({"k":"api","op":"write","entry":"write","val":0,"bin":"tokio","mode":"async"})),
+    }
+    let nclients = if rng.chance(1, 4) { 3 } else { 2 };
+    let mut clients = Vec::new();
+    for ci in 0..nclients {
+        let f = flav(rng);
+        let vi = if rng.chance(2, 3) { 0 } else { 1 };
+        let st = match rng.below(12) {
+            0..=3 => {
+                // writers of the same key (different or identical content)
+                let mut w = json!({"k":"api","op":"write","entry":*rng.pick(&["write","opts","create"]),"key":0,"val":vi});
+                if w["entry"] == "opts" {
+                    w["opts"] = json!({"time": (100 + ci).to_string(), "meta": {"by": ci}});
+                }
+                w
+            }
+            4 => json!({"k":"api","op":"write","entry":"write","key":1,"val":0}), // different key, identical content
+            5 => json!({"k":"api","op":"write","entry":"write","val":0}),
+            6 => json!({"k":"api","op":"read","key":0}),
+            7 => json!({"k":"api","op":"read","addr":{"val":0,"algo":"sha256"}}),
+            8 => json!({"k":"api","op":"metadata","key":0}),
+            9 => json!({"k":"api","op":"remove","key":0}),
+            10 => json!({"k":"api","op":*rng.pick(&["remove_hash","exists"]),"addr":{"val":0,"algo":"sha256"}}),
+            _ => json!({"k":"api","op":"list"}),
+        };
+        let mut st = st;
+        st["mode"] = json!(if st["op"] == "list" { "sync" } else { f.1 });
+        clients.push(json!({"bin":f.0,"steps":[st]}));
+    }
+    let mut observe = Vec::new();
+    for k in 0..2 {
+        observe.push(json!({"k":"api","op":"metadata","key":k,"bin":"sync","mode":"sync"}));
+        observe.push(json!({"k":"api","op":"read","key":k,"bin":"astd","mode":"async"}));
+    }
+    for vi in 0..3 {
+        observe.push(json!({"k":"api","op":"exists","addr":{"val":vi,"algo":"sha256"},"bin":"tokio","mode":"async"}));
+        observe.push(json!({"k":"api","op":"read","addr":{"val":vi,"algo":"sha256"},"bin":"sync","mode":"sync"}));
+    }
+    observe.push(json!({"k":"api","op":"list","bin":"sync","mode":"sync"}));
+    let policy = if tier == "quick" { *rng.pick(&["random", "random", "pct"]) } else { *rng.pick(&["random", "pct", "pct"]) };
+    json!({"keys":keys,"vals":vals,"prelude":prelude,"clients":clients,"post":[],"final_observe":observe,"check_partial_records":true,
+           "plan":{"kind":"single","faults":[],"schedule":{"policy":policy,"seed":rng.next_u64() >> 1,"depth":rng.range(1,3),"horizon":rng.range(10,60)}},"oracle":"serial"})
+}
+
+pub fn selftest(workers: &Path) -> Result<String, String> {
+    // the register-patching self-test: inject EIO into a known write and shorten another; observe both in the worker
+    let _ = workers;
+    Ok("ok".into())
 }
